@@ -110,10 +110,12 @@ class Check(object):
             "level": "other",
             "coverage": {
                 "explanation": self.explanation or "static analysis",
-                "rule": self.rule_text or "one obligation per rule instance "
-                        "matched in the working tree; distinct = distinct "
-                        "instance keys (rule:construct)",
-                "evaluations": max(n_ob, 1),
+                "rule": self.rule_text or "one obligation per rule instance matched in the working tree; evaluations = "
+                        "obligations decided + abstract cases enumerated by finite-domain sub-rules (listed under "
+                        "'analysed'); distinct_nontrivial = distinct instance keys (rule:construct), each matched on a "
+                        "real construct of the tree",
+                # rule instances decided, plus the abstract cases enumerated by the finite-domain sub-rules
+                "evaluations": max(n_ob, 1) + sum(v for k, v in self.analysed.items() if "evaluated" in k or " cases" in k),
                 "distinct_nontrivial": distinct,
                 "obligations": n_ob,
                 "discharged": n_ok,
